@@ -15,6 +15,9 @@ type GenEnv struct {
 	// OffSpecLengths: fixed-size types are sometimes declared LONGER than their natural size (outside RFC 7011,
 	// but accepted by the decoders): only for checks whose oracle does not interpret the octets itself
 	OffSpecLengths bool
+	// NoLongFields keeps fixed-length fields at 40 octets or less (for rigs whose datagrams must fit a 1500-octet
+	// receive buffer to be acknowledged)
+	NoLongFields bool
 	iana           [][]Elem // by type
 	ent            [][]Elem
 	ianaAll        []Elem
@@ -80,7 +83,7 @@ func (e *GenEnv) GenField(t *rapid.T) Field {
 		f.Len = VarLen
 	default:
 		f.Len = uint16(rapid.OneOf(rapid.IntRange(0, 8), rapid.IntRange(0, 40)).Draw(t, "flen"))
-		if rapid.IntRange(0, 23).Draw(t, "longfield") == 0 {
+		if !e.NoLongFields && rapid.IntRange(0, 23).Draw(t, "longfield") == 0 {
 			// long fixed-length octet/string fields (packet sections, descriptions): lengths around the 8-, 12-
 			// and 13-bit marks
 			f.Len = uint16(rapid.SampledFrom([]int{255, 256, 257, 1000, 4095, 4096, 4097, 5000, 8191, 8192, 9000}).Draw(t, "longlen"))
